@@ -871,6 +871,16 @@ class Terminal:
                 offset = 6
             return b"".join(ret)
 
+    async def sdo_recv(self):
+        """receive the next SDO mail, skipping unrelated mail"""
+        while True:
+            type, data = await self.mbx_recv()
+            if type is MBXType.COE and len(data) >= 2 and \
+                    data[1] >> 4 != CoECmd.EMERGENCY.value:
+                return type, data
+            logging.warning(f"expected SDO mail, got {type}, "
+                            f"for terminal {self.name}")
+
     async def sdo_read(self, index, subindex=None):
         """read a single SDO entry
 
@@ -883,12 +893,7 @@ class Terminal:
                     ODCmd.UP_REQ_CA.value if subindex is None
                     else ODCmd.UP_REQ.value,
                     index, 1 if subindex is None else subindex)
-            type = None
-            while type is not MBXType.COE:
-                type, data = await self.mbx_recv()
-                if type is not MBXType.COE:
-                    logging.warning(f"expected CoE package, got {type}, "
-                                    f"for terminal {self.name}")
+            type, data = await self.sdo_recv()
             coecmd, sdocmd, idx, subidx, size = unpack("<HBHBI", data[:10])
             if coecmd >> 12 != CoECmd.SDORES.value:
                 if subindex is None and coecmd >> 12 == CoECmd.SDOREQ.value:
@@ -909,7 +914,7 @@ class Terminal:
                         MBXType.COE, "HBHB4x", CoECmd.SDOREQ.value << 12,
                         ODCmd.SEG_UP_REQ.value + toggle, index,
                         1 if subindex is None else subindex)
-                type, data = await self.mbx_recv()
+                type, data = await self.sdo_recv()
                 if type is not MBXType.COE:
                     raise EtherCatError(f"expected CoE, got {type}")
                 coecmd, sdocmd = unpack("<HB", data[:3])
@@ -947,7 +952,7 @@ class Terminal:
                         MBXType.COE, "HBHB4s", CoECmd.SDOREQ.value << 12,
                         ODCmd.DOWN_EXP.value | (((4 - len(data)) << 2) & 0xc),
                         index, subindex, data)
-                type, data = await self.mbx_recv()
+                type, data = await self.sdo_recv()
             if type is not MBXType.COE:
                 raise EtherCatError(f"expected CoE, got {type}, {data} "
                                     f"{odata} {index:x}:{subindex:x}")
